@@ -36,6 +36,7 @@ def check_sequence(case):
     lastT = None
     warm = False           # a driving-force query with the cache retained has been made since the last clear: later ones are warm-started
     shared = None
+    dens0 = None
     try:
         W.clearCache()
         for k, op in enumerate(case["ops"]):
@@ -43,6 +44,15 @@ def check_sequence(case):
             if kind == "clear":
                 W.clearCache()
                 warm = False
+                continue
+            if kind == "density":
+                # the sampling density is a setting of the object: set on the object with history and on the reference alike;
+                # answers after it belong to the new density, whatever was sampled before
+                if dens0 is None:
+                    dens0 = (W.sampling_pDens, REF.sampling_pDens)
+                W.setDFSamplingDensity(int(op["value"]))
+                REF.setDFSamplingDensity(int(op["value"]))
+                out.label("sampling_density_changed_between_queries")
                 continue
             x = np.array(op["x"], dtype=float)          # (n, nsolutes)
             T = np.array(op["T"], dtype=float)          # (n,)
@@ -217,6 +227,11 @@ def check_sequence(case):
                         out.fail("diffusivity_history_dependent", "%s op %d (%s, removeCache=%s, element %d of %d): %r vs cache-free %r" % (case["system"], k, kind, rc, i, n, np.asarray(ai).tolist(), r.tolist()), removeCache=bool(rc))
             out.label("op_" + kind)
     finally:
+        if dens0 is not None:
+            W.setDFSamplingDensity(dens0[0])
+            REF.setDFSamplingDensity(dens0[1])
+            W.clearCache()
+            REF.clearCache()
         sys.stdout = so
     out.label(case["system"])
     out.nt(nq >= 2 and (jumped or any(len(o.get("T", [])) >= 2 for o in case["ops"]) or any(o["kind"] == "clear" for o in case["ops"])))
@@ -390,6 +405,12 @@ def _gp_sampling_seq(draw):
     for _ in range(draw(st.integers(2, 5))):
         ops.append({"kind": "df", "x": [[draw(st.floats(*cfg["x"][0])), draw(st.floats(*cfg["x"][1]))]], "T": [draw(st.one_of(st.floats(*cfg["T"]), st.sampled_from([1000.0, 1073.15, 1273.15, 1340.0])))], "phase": 0,
                     "removeCache": draw(st.sampled_from([False, False, False, True]))})
+    if draw(st.booleans()):
+        # the density lowered (or raised) between two retained-cache queries at the same temperature
+        k = draw(st.integers(0, len(ops) - 1))
+        again = dict(ops[k], x=[[draw(st.floats(*cfg["x"][0])), draw(st.floats(*cfg["x"][1]))]], removeCache=False)
+        ops[k] = dict(ops[k], removeCache=False)
+        ops[k + 1:k + 1] = [{"kind": "density", "value": draw(st.sampled_from([100, 100, 200, 3000]))}, again]
     return {"system": "nicral_sampling", "retained_ok": True, "ops": ops}
 
 
@@ -398,8 +419,8 @@ def clauses():
         Clause("diffusivity_phase_sequences", _phase_seq, check_phase_sequence, quick=60, thorough=1500, shrink=False,
                rule="generator: 2-7 interdiffusivity / tracer-diffusivity queries (plus clearCache) on Fe-Cr-Ni objects with two mobility phases (fcc and bcc, either listed first, two element orders; the Ni-Cr-Al database has mobilities for fcc only): phase keyword absent / matrix / second phase, removeCache on/off, scalar or array arguments, repeated states and temperature changes 0.004-80 K; "
                     "oracle: every answer (and array element) equals that of a second object asked the same single question with its caches discarded; arguments unchanged; non-trivial: a query judged after a second-phase query that kept its cache"),
-        Clause("gamma_prime_sampling_retained", _gp_sampling_seq, check_sequence, quick=24, thorough=400, shrink=False,
-               rule="generator: 2-5 driving-force queries with the 'sampling' method on Ni-Cr-Al gamma prime at independent random compositions and temperatures 950-1350 K (two-phase and undersaturated), sample cache retained between them (3 in 4); "
+        Clause("gamma_prime_sampling_retained", _gp_sampling_seq, check_sequence, quick=40, thorough=400, shrink=False,
+               rule="generator: 2-5 driving-force queries with the 'sampling' method on Ni-Cr-Al gamma prime at independent random compositions and temperatures 950-1350 K (two-phase and undersaturated), sample cache retained between them (3 in 4), one case in two with the sampling density changed between two retained-cache queries at the same temperature (on the object with history and on the reference alike); "
                     "oracle: each answer equals that of a cache-free object (5e-2 / 1.5 J/mol), repeats agree; non-trivial: >= 2 queries with a temperature jump"),
         Clause("gamma_prime_retained_cache", _gp_seq, check_sequence, quick=24, thorough=400, shrink=False,
                rule="generator: 2-6 tangent driving-force queries on Ni-Cr-Al gamma prime at independent random compositions/temperatures with the cached composition sets retained between them (region of open finding KF-C09-4: violations of the listed kind are counted as known, anything else is reported); non-trivial: as above"),
